@@ -216,6 +216,8 @@ SEQS = [
     # a label of the first program has the name of a constant that the second program defines and loads with li
     ('label_then_const_li', 'size:\naddi x0, x0, 0\nj size\ndw K1', dict(K1=9), 'size = K2\nli x10, size\ndw size\naddi x0, x0, 0', dict(K2=34)),
     ('compress_both_label_then_const', 'addi x8, x8, N\nN:\nj N', dict(K1=4), 'N = K2\naddi x8, x8, N\naddi sp, sp, N', dict(K2=7)),
+    # the first program is refused in the middle of a numeric sequence (for the values of K1 that do not fit), the second holds sequences too
+    ('fail_midsequence_then_data', 'bytes 1 2 K1\nshorts 3 K1 4', dict(K1=18), 'd:\nbytes 4 5\nshorts K2 7\nints 8\ndw d', dict(K2=12)),
 ]
 
 
